@@ -34,6 +34,25 @@ class _Unserialisable:
     pass
 
 
+def _own_request(conn_http, base, c, verb_name, t, r):
+    """a request that carries a caller supplied id, in one of four ways"""
+    form = (t + 2 * r) % 4
+    if form == 0:
+        mine = 'mine-%d-%d' % (t, r)
+        getattr(c, verb_name)('/x', headers={'X-Request-ID': mine, 'X-Mine': mine})
+    elif form == 1:
+        getattr(c, verb_name)('/x', headers={'X-Request-ID': 0, 'X-Mine': 'int0'})          # the caller's id is the number 0
+    elif form == 2:
+        getattr(c, verb_name)('/x', headers={'X-Request-ID': '', 'X-Mine': 'empty'})        # an empty id
+    else:
+        # the id comes from a request adapter of a derived connection (trace id propagation)
+        class Trace(conn_http.RequestAdapter):
+            def process_req_args(self, req_args):
+                req_args.headers['X-Request-ID'] = 'mine-adapter'
+                req_args.headers['X-Mine'] = 'mine-adapter'
+        getattr(conn_http.HttpConn(c, adapters=Trace()), verb_name)('/x')
+
+
 class _Resp:
     code = 200
     _method = 'GET'
@@ -105,7 +124,8 @@ def run(ctx):
                         if rid is None:
                             v = -3
                         elif 'x-mine' in h:
-                            v = -1 if rid == h['x-mine'] else -2
+                            want = {'int0': '0', 'empty': ''}.get(h['x-mine'], h['x-mine'])
+                            v = -1 if str(rid) == want else -2
                         else:
                             m = _ID.match(str(rid))
                             v = int(m.group(3)) if (m and m.group(1) == part and int(m.group(2)) == int(m.group(3)) % 10000) else -3
@@ -122,8 +142,7 @@ def run(ctx):
                         for r in range(1, reqs + 1):
                             verb = getattr(c, VERBS[(t + r) % 5])
                             if (t, r) in [tuple(x) for x in own]:
-                                mine = 'mine-%d-%d' % (t, r)
-                                verb('/x', headers={'X-Request-ID': mine, 'X-Mine': mine})
+                                _own_request(conn_http, base, c, VERBS[(t + r) % 5], t, r)
                             elif (t, r) in [tuple(x) for x in fail]:
                                 try:
                                     c.post('/x', data={'k': _Unserialisable()}, headers=caller_headers)
@@ -218,7 +237,8 @@ def replay(ctx, case):
         class Op:
             def open(self, request):
                 h = {k.lower(): v for k, v in request.header_items()}
-                seen.append(h.get('x-request-id'))
+                seen.append('mine-' if 'x-mine' in h and str(h.get('x-request-id')) == {'int0': '0', 'empty': ''}.get(h['x-mine'], h['x-mine'])
+                            else ('altered-' if 'x-mine' in h else h.get('x-request-id')))
                 return _Resp()
         impl.opener = Op()
         conns = [base, conn_http.BAuthConn(base, 'u', 'p'), conn_http.HttpConn(base)]
@@ -229,7 +249,7 @@ def replay(ctx, case):
                 for r in range(1, reqs + 1):
                     verb = getattr(c, VERBS[(t + r) % 5])
                     if (t, r) in own:
-                        verb('/x', headers={'X-Request-ID': 'mine-%d-%d' % (t, r)})
+                        _own_request(conn_http, base, c, VERBS[(t + r) % 5], t, r)
                     elif (t, r) in fail:
                         try:
                             c.post('/x', data={'k': _Unserialisable()}, headers=caller_headers)
@@ -242,6 +262,8 @@ def replay(ctx, case):
     finally:
         sched.uninstall(sch)
         conn_http.threading = real_threading
+    if any(str(s).startswith('altered-') for s in seen):
+        return 'a caller supplied id was altered: %s' % seen
     gen = [s for s in seen if s and not str(s).startswith('mine-')]
     nums = sorted(int(str(s)[-12:]) for s in gen)
     mine = [s for s in seen if s and str(s).startswith('mine-')]
